@@ -119,6 +119,7 @@ func cmdCheck(args []string) {
 	repo := fs.String("repo", "/repo", "repository")
 	tier := fs.String("tier", envOr("VERIF_TIER", "quick"), "quick|thorough")
 	verif := fs.String("verif", "/verif", "verif dir")
+	frame := fs.Bool("frame", false, "also run the go/ssa frame checker (govframe) for this property and merge its obligations into the evidence")
 	bounded := fs.String("bounded", "", "comma separated govrac suites run as the bounded stand-in for the functions left trusted (reported as bounded, never as proved)")
 	fs.Parse(args[1:])
 	boundedSuites = nil
@@ -127,7 +128,47 @@ func cmdCheck(args []string) {
 			boundedSuites = append(boundedSuites, b)
 		}
 	}
+	withFrame = *frame
 	os.Exit(runCheck(prop, *repo, *verif, *tier))
+}
+
+var withFrame bool
+
+// runFrame runs govframe for the property; its evidence file (same path) is read back and removed so that this check's
+// evidence can embed it.
+func runFrame(prop, repo, verif, tier string) (viol []string, knownL []string, cov map[string]interface{}, assumptions []string, broken string) {
+	cmd := exec.Command(filepath.Join(verif, "bin", "govframe"), "check", prop, "--tier", tier, "--repo", repo, "--verif", verif)
+	cmd.Env = append(os.Environ(), "GOFLAGS=-mod=mod", "GOPROXY=off", "GOSUMDB=off", "GOTOOLCHAIN=local")
+	out, err := cmd.CombinedOutput()
+	code := 0
+	if err != nil {
+		code = 1
+		if ee, ok := err.(*exec.ExitError); ok {
+			code = ee.ExitCode()
+		}
+	}
+	if code >= 2 {
+		broken = fmt.Sprintf("govframe check %s failed (exit %d): %s", prop, code, firstLines(string(out), 12))
+		return
+	}
+	for _, l := range strings.Split(string(out), "\n") {
+		switch {
+		case strings.HasPrefix(l, "VIOLATION property="+prop+" "):
+			viol = append(viol, l)
+		case strings.HasPrefix(l, "KNOWN-FINDING: property="+prop+" "):
+			knownL = append(knownL, l)
+		case strings.HasPrefix(l, "govframe "):
+			fmt.Println("  " + l)
+		}
+	}
+	var ev struct {
+		Coverage    map[string]interface{} `json:"coverage"`
+		Assumptions []string               `json:"assumptions"`
+	}
+	if b, err := os.ReadFile(filepath.Join(verif, "evidence", prop+".json")); err == nil {
+		json.Unmarshal(b, &ev)
+	}
+	return viol, knownL, ev.Coverage, ev.Assumptions, ""
 }
 
 var boundedSuites []string
@@ -385,6 +426,21 @@ func runCheck(prop, repo, verif, tier string) int {
 	for _, l := range knownLines {
 		fmt.Println(l)
 	}
+	var frameCov map[string]interface{}
+	var frameAssumptions []string
+	if withFrame {
+		fv, fk, fc, fa, broken := runFrame(prop, repo, verif, tier)
+		if broken != "" {
+			fmt.Println("ENGINE-ERROR", broken)
+			exitCode = 2
+		}
+		violations = append(violations, fv...)
+		for _, l := range fk {
+			fmt.Println(l)
+		}
+		knownLines = append(knownLines, fk...)
+		frameCov, frameAssumptions = fc, fa
+	}
 	var boundedSummary []map[string]interface{}
 	if len(boundedSuites) > 0 {
 		bv, bk, bs, broken := runBounded(prop, repo, verif, tier, seed)
@@ -449,6 +505,17 @@ func runCheck(prop, repo, verif, tier string) int {
 	}
 	if cross != nil {
 		ev.Coverage["second_solver_cross_check"] = cross
+	}
+	if frameCov != nil {
+		// frame obligations (one per store / call site, discharged by the go/ssa frame checker) are counted with the SMT obligations
+		fo, _ := frameCov["obligations"].(float64)
+		fd, _ := frameCov["discharged"].(float64)
+		ev.Coverage["smt_obligations"] = nObl
+		ev.Coverage["smt_discharged"] = nOK
+		ev.Coverage["obligations"] = nObl + int(fo)
+		ev.Coverage["discharged"] = nOK + int(fd)
+		ev.Coverage["frame_checker"] = frameCov
+		ev.Assumptions = append(ev.Assumptions, frameAssumptions...)
 	}
 	extraEvidence(w, prop, tier, ev.Coverage)
 	os.MkdirAll(filepath.Dir(evPath), 0o755)
